@@ -734,6 +734,35 @@ func resolveAnchors(p *Prog) *Anchors {
 			return sigIs(f, []string{"autoscaling.Instance"}, []string{"string"})
 		})
 	}
+	// functions the rules name by their call terms keep those terms; every other one-block,
+	// effect-free helper with a numeric or struct result is read as the expression it returns
+	p.keepCalls = map[*ssa.Function]bool{}
+	av := reflect.ValueOf(a).Elem()
+	for i := 0; i < av.NumField(); i++ {
+		if !av.Type().Field(i).IsExported() {
+			continue
+		}
+		if f, ok := av.Field(i).Interface().(*ssa.Function); ok && f != nil {
+			p.keepCalls[f] = true
+		}
+	}
+	for f := range p.noExpand {
+		p.keepCalls[f] = true
+	}
+	// the accessors of the configuration types are named by the rules (cool-down, grace periods, …)
+	for _, f := range p.Funcs {
+		if recv := f.Signature.Recv(); recv != nil {
+			rt := recv.Type()
+			if pt, ok := rt.(*types.Pointer); ok {
+				rt = pt.Elem()
+			}
+			for _, nt := range []*types.Named{a.TOptions, a.TAWSOptions, a.TOpts} {
+				if nt != nil && types.Identical(rt, nt) {
+					p.keepCalls[f] = true
+				}
+			}
+		}
+	}
 	return a
 }
 
